@@ -15,6 +15,12 @@
      [sig_faulty ps]      first parameter is not self, or some parameter is
                           *args / **kwargs / keyword-only, or some parameter
                           name is not one of self, tm, state_tm, initial_call.
+     [marked_first k], [marked_default k]  what the SOURCE says: the first=
+                          option of the decorator expression k as written,
+                          resp. "is default_state" -- for every spelling:
+                          @state(first=True) (factory), k = state(f, first=True)
+                          (function and options in one call; bare @state),
+                          timed_state, default_state.
    [reserved] is the list of names n with hasattr(StateMachine, n) or
    n in StateMachine.__annotations__; it is regenerated from the imported class
    on every run and the theorems are instantiated with it (work/C12/Gen_C12.v). *)
@@ -207,6 +213,67 @@ Theorem C12_module_states_wellplaced : forall reserved cs ds, define_all reserve
     k = s_name s /\ nth i (sm_flags cs) false = true.
 Proof. exact define_all_wf. Qed.
 
+(* ---- "marked first": from the source to the multiplicity check ------- *)
+
+(* the wrapper carries exactly the marks of the decorator expression *)
+Theorem C12_marks_kept : forall reserved d s, construct reserved d = Ok s ->
+  s_first s = marked_first (d_deco d) /\ s_must_finish s = marked_must_finish (d_deco d) /\
+  s_default s = marked_default (d_deco d) /\ s_timed s = marked_timed (d_deco d) /\
+  s_name s = d_fname d /\ s_desc s = d_doc d.
+Proof. exact marks_kept. Qed.
+
+(* [state] called with the function AND the options gives what the decorator
+   it returns for the same options gives on that function *)
+Theorem C12_state_call_paths_agree : forall reserved g first must_finish,
+  exists dec, state_fn reserved None first must_finish = RDecorator dec /\
+              state_fn reserved (Some g) first must_finish = RWrapper (dec g).
+Proof. exact state_fn_paths_agree. Qed.
+
+(* the spelling of the decorator is irrelevant: same function, same options
+   => same state (or same exception) *)
+Theorem C12_spelling_irrelevant : forall reserved d d',
+  d_fname d = d_fname d' -> d_params d = d_params d' -> d_doc d = d_doc d' ->
+  marked_first (d_deco d) = marked_first (d_deco d') ->
+  marked_must_finish (d_deco d) = marked_must_finish (d_deco d') ->
+  marked_timed (d_deco d) = marked_timed (d_deco d') ->
+  marked_default (d_deco d) = marked_default (d_deco d') ->
+  construct reserved d = construct reserved d'.
+Proof. exact spelling_irrelevant. Qed.
+
+(*   <decorator expression> def k(..)     (k not rebound below)
+   in the body of an accepted class statement.  For every class whose most
+   derived class this is (any base classes [rest]; [extra]: the non-state keys
+   setattr adds to the class __dict__): k counts as first state / as default
+   state at instantiation iff the source marks it so, and it is listed under
+   the function's name with the function's docstring *)
+Theorem C12_first_is_marked : forall reserved dicts owner_is_sm pre k d post ns extra rest,
+  define_class reserved dicts owner_is_sm (pre ++ (k, SState d) :: post) = Ok ns ->
+  ~ In k (keys post) -> ~ In k extra ->
+  (first_in ((ns ++ map (fun x => (x, MOther)) extra) :: rest) k <-> marked_first (d_deco d) = true) /\
+  (default_in ((ns ++ map (fun x => (x, MOther)) extra) :: rest) k <-> marked_default (d_deco d) = true) /\
+  exists s, eff_state ((ns ++ map (fun x => (x, MOther)) extra) :: rest) k s /\
+            s_name s = k /\ s_desc s = d_doc d.
+Proof. exact first_is_marked. Qed.
+
+(* a function the most derived class marks first is found *)
+Theorem C12_marked_first_found : forall reserved dicts owner_is_sm pre k d post ns extra rest,
+  define_class reserved dicts owner_is_sm (pre ++ (k, SState d) :: post) = Ok ns ->
+  ~ In k (keys post) -> ~ In k extra -> marked_first (d_deco d) = true ->
+  build_states ((ns ++ map (fun x => (x, MOther)) extra) :: rest) <> Err NoFirst.
+Proof. exact marked_first_found. Qed.
+
+(* two different functions of one class body marked first, each with any
+   spelling: the class cannot be instantiated (and not for lack of a first state) *)
+Theorem C12_two_marked_first_rejected :
+  forall reserved dicts owner_is_sm body ns extra rest pre1 k1 d1 post1 pre2 k2 d2 post2,
+  define_class reserved dicts owner_is_sm body = Ok ns ->
+  body = pre1 ++ (k1, SState d1) :: post1 -> ~ In k1 (keys post1) ->
+  body = pre2 ++ (k2, SState d2) :: post2 -> ~ In k2 (keys post2) ->
+  k1 <> k2 -> ~ In k1 extra -> ~ In k2 extra ->
+  marked_first (d_deco d1) = true -> marked_first (d_deco d2) = true ->
+  exists e, build_states ((ns ++ map (fun x => (x, MOther)) extra) :: rest) = Err e /\ e <> NoFirst.
+Proof. exact two_marked_first_rejected. Qed.
+
 Theorem C12_direct_call : forall (A K : Type) (s : sdata) (args : list A) (kwargs : list (string * K)),
   call_state s args kwargs = Err IllegalCall.
 Proof. exact (fun A K => @direct_call A K). Qed.
@@ -334,6 +401,37 @@ Example C12_nv_second_binding :
      r_first r = "work").
 Proof. repeat split; try reflexivity; repeat eexists; vm_compute; reflexivity. Qed.
 
+(* the plain-call spelling  go = state(go, first=True).  A machine whose only
+   first state is spelled that way instantiates and starts there; a second
+   first state spelled that way (same class / subclass) is MultipleFirst; a
+   subclass overriding the inherited first state by  go = state(go)  (no mark)
+   has no first state; bare @state marks nothing; both spellings give the same
+   state *)
+Definition nv_go (k : deco) := ("go", SState (nvd "go" ["self"] (Some "start") k)).
+Definition nv_one (body : list (string * smember)) : classdef :=
+  {| c_bases := [BSM]; c_body := body; c_extra := [] |}.
+
+Example C12_nv_call_spelling :
+  (exists ds r, define_all nv_reserved [nv_one [nv_go (DStateCall true false);
+                                                ("b", SState (nvd "b" ["self"] None (DStateCall false true)))]] = Ok ds /\
+     instantiate ds [0] = Ok r /\ r_first r = "go" /\ r_names r = ["go"; "b"] /\ r_descs r = ["start"; ""]) /\
+  (exists ds, define_all nv_reserved [nv_one [nv_go (DState true false);
+                                              ("b", SState (nvd "b" ["self"] None (DStateCall true false)))]] = Ok ds /\
+     instantiate ds [0] = Err MultipleFirst) /\
+  (exists ds, define_all nv_reserved
+       [nv_one [nv_go (DState true false)];
+        {| c_bases := [BClass 0]; c_body := [("b", SState (nvd "b" ["self"] None (DStateCall true false)))]; c_extra := [] |};
+        {| c_bases := [BClass 0]; c_body := [nv_go (DStateCall false false)]; c_extra := [] |};
+        {| c_bases := [BClass 0]; c_body := [nv_go (DStateCall true true)]; c_extra := [] |}] = Ok ds /\
+     instantiate ds [1; 0] = Err MultipleFirst /\ instantiate ds [2; 0] = Err NoFirst /\
+     (exists r, instantiate ds [3; 0] = Ok r /\ r_first r = "go")) /\
+  construct nv_reserved (nvd "go" ["self"] None (DStateCall true false)) =
+    construct nv_reserved (nvd "go" ["self"] None (DState true false)) /\
+  (exists s, construct nv_reserved (nvd "go" ["self"] None (DStateCall true true)) = Ok s /\
+     s_first s = true /\ s_must_finish s = true /\ s_default s = false /\ s_timed s = false) /\
+  construct nv_reserved (nvd "done" ["self"] None (DStateCall true false)) = Err EInvalidStateName.
+Proof. repeat split; try reflexivity; repeat eexists; vm_compute; reflexivity. Qed.
+
 (* the adapter really reorders: declared (self, state_tm, tm) *)
 Example C12_nv_adapter :
   exists args, validate_sig (map nvp ["self"; "state_tm"; "tm"]) = Ok args /\
@@ -360,6 +458,12 @@ Print Assumptions C12_define_ok_iff.
 Print Assumptions C12_define_ok_decorated.
 Print Assumptions C12_module.
 Print Assumptions C12_module_states_wellplaced.
+Print Assumptions C12_marks_kept.
+Print Assumptions C12_state_call_paths_agree.
+Print Assumptions C12_spelling_irrelevant.
+Print Assumptions C12_first_is_marked.
+Print Assumptions C12_marked_first_found.
+Print Assumptions C12_two_marked_first_rejected.
 Print Assumptions C12_direct_call.
 Print Assumptions C12_names_exact.
 Print Assumptions C12_descs_aligned.
